@@ -194,6 +194,22 @@ CONTRACTS: dict[str, Any] = {
 }
 
 
+def _list_setitem(m: Machine, a: list) -> Any:
+    """CPyList_SetItem(list, tagged index, boxed int): IndexError outside [-len, len); otherwise the store
+    is an observable event (normalised position, stored int value) recorded on the Ctx."""
+    _, idxw, boxed = a
+    n = m.c.list_len  # type: ignore[attr-defined]
+    idx = m.val(idxw)
+    if m.fork(z3.Or(idx < -n, idx >= n)):
+        m.exc = "IndexError"
+        return z3.IntVal(0)
+    m.c.ir_events.append((z3.If(idx < 0, idx + n, idx), m.val((boxed - 2) / 8)))  # type: ignore[attr-defined]
+    return z3.IntVal(1)
+
+
+CONTRACTS["CPyList_SetItem"] = _list_setitem
+
+
 def _set_overflow(name: str) -> Any:
     def g(m: Machine, a: list) -> Any:
         m.exc = "OverflowError"
